@@ -172,6 +172,7 @@ def problems(env, cfg, tier):
             # (9, 9) case split on the targeted cell (exhaustive by in_spec): one big sum comparison times out
             "C11.variant_decreases": ~target | last | (empties(s2.board) < empties(s.board)),
             "C11.variant_decreases_by_one_on_legal": ~target | ~ok | (empties(s2.board) == empties(s.board) - 1),
+            "C11.last_only_for_a_documented_reason": ~last | ~ok | stuck2,
             "C11.variant_bounded": (empties(s.board) >= 1) & (empties(s.board) <= N * N),
             "C12.obs.board": o.board == s2.board,
             "C12.obs.action_mask": o.action_mask == s2.action_mask,
@@ -213,25 +214,27 @@ def problems(env, cfg, tier):
     row = dict(title=f"Sudoku.is_puzzle_solved._validate_row@{cfg}", args=(state.board[0],), requires=lambda v: {}, ensures=row_ens,
                workers=1, targets=[U.is_puzzle_solved])
 
-    # index patterns: PATTERN is a complete valid sudoku over the indices 0..8; BAD_x breaks exactly one kind of unit
+    # index patterns: PATTERN is a complete valid sudoku over the indices 0..8; bad_x breaks exactly one kind of unit
     PATTERN = np.array([[(3 * (r % 3) + r // 3 + c) % N for c in range(N)] for r in range(N)])
     bad_rows = PATTERN.copy(); bad_rows[[0, 1], 0] = PATTERN[[1, 0], 0]  # swap two cells of one column and box: rows 0, 1 repeat an entry
     bad_cols = PATTERN.copy(); bad_cols[0, [0, 1]] = PATTERN[0, [1, 0]]  # swap two cells of one row and box: columns 0, 1 repeat an entry
     bad_boxes = PATTERN.copy(); bad_boxes[[2, 3]] = PATTERN[[3, 2]]      # swap two rows of different bands: only boxes repeat entries
 
-    def comp_ens(board, v):
+    def comp_ens(board):
         conj = jnp.all(jnp.stack([VR(u) for u in units(board)]))
         out = {"canary.no_board_is_full": ~full(board)}
         for p in REWARD_DEPENDENT:
             out[f"{p}.is_puzzle_solved_is_validate_row_on_the_27_units"] = U.is_puzzle_solved(board) == conj
-            # instances of the lemma on structured boards (whatever the 9 symbols v are, a unit repeats an entry): they
-            # make a dropped row / column / box check refutable with a small model
-            out[f"{p}.board_with_repeats_in_rows_only_is_not_solved"] = ~U.is_puzzle_solved(v[bad_rows])
-            out[f"{p}.board_with_repeats_in_columns_only_is_not_solved"] = ~U.is_puzzle_solved(v[bad_cols])
-            out[f"{p}.board_with_repeats_in_boxes_only_is_not_solved"] = ~U.is_puzzle_solved(v[bad_boxes])
+            # concrete instances of the lemma (fold to constants, no solver cost): a dropped row / column / box check makes
+            # the lemma above `unknown` (a counterexample is a Latin square, hard to find through 27 rank-encoded sorts);
+            # these instances turn such a defect into a replayable violation
+            out[f"{p}.a_complete_valid_board_is_solved"] = U.is_puzzle_solved(jnp.asarray(PATTERN, jnp.int32))
+            out[f"{p}.board_with_repeats_in_rows_only_is_not_solved"] = ~U.is_puzzle_solved(jnp.asarray(bad_rows, jnp.int32))
+            out[f"{p}.board_with_repeats_in_columns_only_is_not_solved"] = ~U.is_puzzle_solved(jnp.asarray(bad_cols, jnp.int32))
+            out[f"{p}.board_with_repeats_in_boxes_only_is_not_solved"] = ~U.is_puzzle_solved(jnp.asarray(bad_boxes, jnp.int32))
         return out
 
-    comp = dict(title=f"Sudoku.is_puzzle_solved@{cfg}", args=(state.board, state.board[0]), requires=lambda board, v: {}, ensures=comp_ens,
+    comp = dict(title=f"Sudoku.is_puzzle_solved@{cfg}", args=(state.board,), requires=lambda board: {}, ensures=comp_ens,
                 targets=[U.is_puzzle_solved])
 
     # ---- reset with the configured generator (DummyGenerator: one constant puzzle -> everything folds to constants)
